@@ -1,4 +1,5 @@
 """C02 Engine firing rule (DESIGN 4/C02)."""
+import re
 from .common import *
 
 EXPLANATION = (
@@ -18,7 +19,6 @@ ASSUMPTIONS = ["range-for iterates a container front to back"]
 def run(ctx):
     # locals / parameters the rules below refer to by name (a rename makes the analysis 'broken', never a violation)
     ctx.anchor(ctx.fn1('Oomd::Engine::Ruleset::runOnceImpl'), 'run_actions', 'dg', 'context')
-    ctx.anchor(ctx.fn1('Oomd::Engine::DetectorGroup::check'), 'ret')
     ctx.anchor(ctx.fn1('Oomd::Engine::Engine::runOnce'), 'base', 'dropin')
     ctx.anchor(ctx.fn1('Oomd::Engine::Engine::prerun'), 'base', 'dropin')
     P = ctx.prog
@@ -45,24 +45,35 @@ def run(ctx):
                       chk.loc(), "verdict '%s' starts true" % var, "verdict '%s' is not initialised to true" % var)
             ws = local_writes(chk, var)
             fl = Flow(P, chk, cg=ctx.cg)
+            # the value a branch tests must be the result of this iteration's run(): a local initialised from it, or the call itself
+            def is_run_result(txt):
+                if re.match(r"^\w+$", txt):
+                    init_, v_ = local_init(chk, txt, must=False)
+                    return v_ is not None and init_ is not None and init_ >= 0 and chk.strip(init_) in runs
+                return any(chk.text(r_) == txt for r_ in runs)
+            STOPK = re.compile(r"^\((?:Oomd::Engine::)?PluginRet::STOP == (.+)\)$|^\((.+) == (?:Oomd::Engine::)?PluginRet::STOP\)$")
+
+            def on_stop(k, p):
+                if p == "case:STOP":
+                    return True
+                m_ = STOPK.match(k) if isinstance(k, str) else None
+                return bool(m_) and p is True and is_run_result(m_.group(1) or m_.group(2))
             good = bool(ws)
             for w in ws:
                 rhs = chk.text(write_rhs(chk, w))
                 g = fl.guards(w)
-                stop = [k for k, p in g if p == "case:STOP"]
-                if rhs != "false" or not stop:
+                if rhs != "false" or not any(on_stop(k, p) for k, p in g):
                     good = False
                     ctx.violation("check:verdict-cleared-only-on-STOP", "switch_table", chk.loc(w),
-                                  "verdict written with '%s' outside 'case STOP' (guards: %s)" % (
-                                      rhs, ", ".join("%s=%s" % x for x in g if isinstance(x[1], str)) or "none"))
+                                  "verdict written with '%s' outside the STOP outcome of run() (guards: %s)" % (
+                                      rhs[:60], ", ".join("%s=%s" % x for x in g if isinstance(x[1], str)) or "none"))
             if good:
                 ctx.ok("check:verdict-cleared-only-on-STOP", "switch_table", chk.loc(ws[0]),
-                       "verdict is only ever set to false, under case STOP")
+                       "verdict is only ever set to false, under the STOP outcome")
             # on STOP the verdict IS cleared before the iteration ends
             cb = case_blocks(chk)
-            if "STOP" not in cb:
-                ctx.violation("check:stop-clears-verdict", "switch_table", chk.loc(), "no 'case STOP' in check")
-            else:
+            sw = [i for i in chk.all("switch")]
+            if "STOP" in cb:
                 fs = Flow(P, chk, events={w: [("set", "cleared")] for w in ws}, start=cb["STOP"],
                           cut=set(L["back_edges"]), cg=ctx.cg)
                 okc = True
@@ -76,22 +87,33 @@ def run(ctx):
                 ctx.check(okc, "check:stop-clears-verdict", "must_follow", chk.loc(),
                           "a STOP verdict always clears the group's trigger",
                           "a detector STOP can leave the trigger set")
-            # the switch scrutinee is the run() result
-            for r in runs:
-                par = chk.parent.get(r)
-            sw = [i for i in chk.all("switch")]
-            okv = False
-            for s in sw:
-                c = chk.nodes[chk.strip(chk.nodes[s]["c"])]
-                if c["k"] == "ref":
-                    init, v = local_init(chk, c["name"], must=False)
-                    if init >= 0 and chk.strip(init) in runs:
+                # the switch scrutinee is the run() result
+                okv = False
+                for s_ in sw:
+                    c = chk.nodes[chk.strip(chk.nodes[s_]["c"])]
+                    if c["k"] == "ref":
+                        okv = okv or is_run_result(c["name"])
+                    elif chk.strip(chk.nodes[s_]["c"]) in runs:
                         okv = True
-                elif chk.strip(chk.nodes[s]["c"]) in runs:
-                    okv = True
-            ctx.check(okv, "check:switch-on-run-result", "dataflow", chk.loc(),
-                      "the switch scrutinee is the value returned by run()",
-                      "the switch in check does not test the value returned by run()")
+                ctx.check(okv, "check:switch-on-run-result", "dataflow", chk.loc(),
+                          "the switch scrutinee is the value returned by run()",
+                          "the switch in check does not test the value returned by run()")
+            else:
+                # if-form: if (ret == STOP) verdict = false;
+                fs = iter_flow(ctx, chk, L, {w: [("set", "cleared")] for w in ws},
+                               edge_tokens=lambda k, p: ["on-stop"] if on_stop(k, p) else None)
+                seen_edge, okc = False, True
+                for b in back_sources(L):
+                    for st in (fs.OUT.get(b) or {}).values():
+                        if "on-stop" in st.may:
+                            seen_edge = True
+                            if "cleared" not in st.must and "on-stop" in st.must:
+                                okc = False
+                if not seen_edge:
+                    ctx.violation("check:stop-clears-verdict", "switch_table", chk.loc(), "no branch on the STOP outcome of run() in check")
+                else:
+                    ctx.check(okc, "check:stop-clears-verdict", "must_follow", chk.loc(), "a STOP verdict always clears the group's trigger",
+                              "a detector STOP can leave the trigger set")
     # ------------------------------------------------ DetectorGroup::prerun
     dpre = ctx.fn1("Oomd::Engine::DetectorGroup::prerun")
     ls = loop_over(dpre, "detectors_")
